@@ -191,19 +191,19 @@ func (e *Engine) report(prop, tier string, seed int, groups []*groupResult, miss
 			"checker_cmd":              fmt.Sprintf("/verif/check %s %s", prop, tier),
 			"trusted_base": []string{"govc VC generator (/verif/tool)", "golang.org/x/tools/go/ssa v0.29.0 (naive form) as the semantics of Go source",
 				"z3 5.1.0 (z3-new), z3 4.8.12, cvc5 1.0", "prelude contracts /verif/prelude/*.spec and the built-in library models"},
-			"functions_under_contract": units,
-			"per_backend":              perBackend,
-			"solver_time_s":            solverTime,
-			"vacuity_covers":           covers,
-			"vacuity_covers_sat":       coversOK,
-			"abstracted_instructions":  e.abstracted,
-			"havocked_calls":           e.havocCalls,
-			"inlined_callees":          e.inlined,
-			"unit_stats":               e.unitStats,
+			"functions_under_contract":  units,
+			"per_backend":               perBackend,
+			"solver_time_s":             solverTime,
+			"vacuity_covers":            covers,
+			"vacuity_covers_sat":        coversOK,
+			"abstracted_instructions":   e.abstracted,
+			"havocked_calls":            e.havocCalls,
+			"inlined_callees":           e.inlined,
+			"unit_stats":                e.unitStats,
 			"known_findings_suppressed": len(knownHit),
-			"samples":                  samples,
-			"notes":                    notes,
-			"engine_warnings":          e.warnings,
+			"samples":                   samples,
+			"notes":                     notes,
+			"engine_warnings":           e.warnings,
 			"explanation": "every obligation is an SMT query (path condition and not goal) generated from the current SSA of the listed functions; discharged = unsat. " +
 				"Obligations that share a name are the same obligation reached on different paths and are all required to be unsat.",
 		},
